@@ -60,7 +60,7 @@ class C15(Prop):
             te = 1
         n = rng.randint(40, 160)
         ch = rng.randint(1, 3)
-        return {"sr_file": sr, "te": Fraction(te), "n": n, "ch": ch, "seed": rng.randrange(1000)}
+        return {"sr_file": sr, "te": Fraction(te), "n": n, "ch": ch, "seed": rng.randrange(1000), "from_file": rng.random() < 0.5}
 
     def _case(self, rng):
         kind = rng.choice(["clip", "clip", "clip", "recording", "resample", "spectrogram", "spectrogram"])
@@ -149,8 +149,12 @@ class C15(Prop):
         p, pcm = self._files[key]
         te = f["te"]
         sr = int(f["sr_file"] * te)
-        rec = data.Recording(uuid=U(1), path=p, duration=float(Fraction(f["n"]) / (Fraction(f["sr_file"]) * te)), channels=f["ch"], samplerate=sr,
-                             time_expansion=float(te))
+        if f.get("from_file"):
+            # the library's own way of describing a file (its samplerate / duration / channels must be the file's)
+            rec = data.Recording.from_file(p, time_expansion=float(te), compute_hash=False)
+        else:
+            rec = data.Recording(uuid=U(1), path=p, duration=float(Fraction(f["n"]) / (Fraction(f["sr_file"]) * te)), channels=f["ch"], samplerate=sr,
+                                 time_expansion=float(te))
         frames = [[Fraction(int(v), 32768) for v in row] for row in pcm]
         return rec, frames, sr
 
@@ -167,7 +171,8 @@ class C15(Prop):
         from soundevent import audio, data
 
         rec, frames, sr = self._mk(c["file"])
-        out = {"file_frames": frames, "sr": Fraction(sr), "duration": Fraction(float(rec.duration))}
+        out = {"file_frames": frames, "sr": Fraction(sr), "duration": Fraction(float(rec.duration)),
+               "rec_meta": [int(rec.samplerate), int(rec.channels), Fraction(float(rec.duration))]}
         k = c["kind"]
         full = guarded(audio.load_recording, rec)
         if full[0] != "ok":
@@ -287,6 +292,11 @@ class C15(Prop):
 
         sr = o["sr"]
         n = len(o["file_frames"])
+        if c["file"].get("from_file") and "rec_meta" in o:
+            msr, mch, mdur = o["rec_meta"]
+            if msr != sr or mch != c["file"]["ch"] or abs(mdur - Fraction(n) / sr) > Fraction(1, 10**9):
+                fail("recording-metadata", f"Recording.from_file describes the file as {msr} Hz / {mch} ch / {float(mdur)} s; the file has {sr} Hz "
+                                           f"(x time expansion) / {c['file']['ch']} ch / {float(Fraction(n) / sr)} s")
         if "recording" not in o:
             fail("raised", f"load_recording raised {o['res'][1]}: {o.get('msg', '')[:150]}")
             return fails
